@@ -32,6 +32,9 @@ pub enum Dev {
     /// the leading bytes of w rewritten (the plaintext is known) so that they unmask to another length prefix: index
     /// into `crafted_prefixes`
     CraftedPrefix(u8),
+    /// the payload rewritten (the plaintext is known) so that it frames another message derived from the original:
+    /// 0 = SHA-256(M), 1 = M reversed, 2 = SHA-256(SHA-256(M)), 3 = the first 32 bytes of M, 4 = alpha-independent zeros
+    CraftedMessage(u8),
 }
 
 #[derive(Clone, Debug, PartialEq, Eq, Hash, Serialize, Deserialize)]
@@ -205,6 +208,11 @@ impl<C: Suite> Model for M13<C> {
                 a.push(Dev::CraftedPrefix(i));
             }
         }
+        if st.len >= 32 && st.len <= 1000 {
+            for i in 0..5u8 {
+                a.push(Dev::CraftedMessage(i));
+            }
+        }
         a
     }
     fn step(&self, st: &St, a: &Dev) -> Option<St> {
@@ -343,6 +351,21 @@ impl<C: Suite> Model for M13<C> {
                     let framed = rf::frame(&msg);
                     for (j, b) in planted.iter().enumerate() {
                         ct.w[j] ^= framed[j] ^ b;
+                    }
+                    mutant = true;
+                }
+                Dev::CraftedMessage(i) => {
+                    use sha2::Digest;
+                    let other: Vec<u8> = match i {
+                        0 => sha2::Sha256::digest(&msg).to_vec(),
+                        1 => msg.iter().rev().cloned().collect(),
+                        2 => sha2::Sha256::digest(sha2::Sha256::digest(&msg)).to_vec(),
+                        3 => msg[..32].to_vec(),
+                        _ => vec![0u8; 32],
+                    };
+                    let (old, new) = (rf::frame(&msg), rf::frame(&other));
+                    for j in 0..new.len().min(ct.w.len()) {
+                        ct.w[j] ^= old[j] ^ new[j];
                     }
                     mutant = true;
                 }
